@@ -12,11 +12,11 @@ from specmc import gen
 
 ID = "C19"
 LEVEL = "model_checking"
-RULE = ("explicit-state breadth-first search from the empty sandbox over histories of commands: generate(doc in {A, B disjoint names, G = A under a title spelled differently with the same derived names, "
+RULE = ("explicit-state breadth-first search from the empty sandbox over histories of commands: generate(doc in {A, B disjoint names, G = A under a title spelled differently with the same derived names, H / I = the same names without any schema / without any operation, "
         "C hostile schema/operation/tag names, D hostile title}, meta in {none, poetry}, overwrite in {no, yes}, location in "
         "{default-from-title in cwd, --output-path}) and user edits (make an empty directory or one holding only dot entries where --output-path points, an empty one at the default location, add a file at the project root, at the package root, modify a "
         "generated file), also with generate_all_tags and with post hooks that leave a trace, through the real typer CLI; states = full content of the sandbox + flavours generated per directory, "
-        "deduplicated on a canonical hash; every transition audited with sys.addaudithook; quick: depth 4; thorough: depth 4 over the full command set (5 documents, both flavours, both locations) and depth 5 over a 15-command core set; a generation that fails while writing (un-encodable text) must keep the user's files; custom templates taken from a user directory outside the output")
+        "deduplicated on a canonical hash; every transition audited with sys.addaudithook; quick: depth 3 over the full quick command set + depth 4 over a 16-command core; thorough: depth 4 over the full command set (5 documents, both flavours, both locations) and depth 5 over a 15-command core set; a generation that fails while writing (un-encodable text) must keep the user's files; custom templates taken from a user directory outside the output")
 FLOOR = 0.3
 ASSUMPTIONS = ["audit hooks see every open-for-write/mkdir/remove/rename/rmtree", "typer's CliRunner reproduces the command line behaviour"]
 
@@ -82,6 +82,9 @@ DOCS["N"]["components"]["schemas"]["Alpha"]["description"] = "caf\u00e9 \u2603 n
 # G: document A under a title that is spelled differently but derives the same project / package names: only the metadata files
 # (README, pyproject description) and the package docstring tell the two apart
 DOCS["G"] = mk("SAME-title!", ["Alpha", "Shared"], ["opA", "opShared"], tag="store")
+# H: the same names, but the document has lost every schema (no models at all); I: it has lost every operation (no endpoints at all)
+DOCS["H"] = mk("Same Title", [], ["opA", "opShared"], tag="store")
+DOCS["I"] = mk("Same Title", ["Alpha", "Shared"], [], tag="store")
 USER_FILES = ("USER.txt", "user_mod.py", ".editorconfig")
 HOOK_FILES = ("HOOK_RAN.txt", "HOOK_STAMP")       # what the configured post hooks leave behind: not part of the generated tree
 
@@ -95,6 +98,8 @@ def commands(tier):
                 cmds.append(["gen", d, meta, ow, "default"])
     for ow in (False, True):
         cmds.append(["gen", "G", "poetry", ow, "default"])
+    for d in ("H", "I"):
+        cmds.append(["gen", d, "none", True, "default"])
     for d in ("A", "B"):
         for meta in (("none",) if tier == "quick" else ("none", "poetry")):
             for ow in (False, True):
@@ -372,7 +377,17 @@ def drive(ctx):
     """quick: depth 4 over the quick command set.  thorough: depth 4 over the full command set, then depth 5 over a core command set
     (the full set at depth 5 does not fit in memory: every state holds the whole sandbox)."""
     if ctx.tier == "quick":
-        return _bfs(ctx, commands("quick"), 4)
+        # depth 3 over the full quick command set + depth 4 over a core set (the full set at depth 4 is ~80 k transitions)
+        full = commands("quick")
+        core = [c for c in full if c[0] == "user" and c[1] in ("root", "pkg", "modify", "mkdir-out")
+                or (c[0] == "gen" and len(c) == 5 and ((c[1] in ("A", "B") and c[2] == "none") or (c[1] in ("A", "G") and c[2] == "poetry" and c[3] and c[4] == "default")
+                                                      or (c[1] in ("H", "I"))))]
+        c1, r1, i1 = _bfs(ctx, full, 3)
+        c2, r2, i2 = _bfs(ctx, core, 4)
+        info = {"states": i1["states"] + i2["states"], "transitions": i1["transitions"] + i2["transitions"], "traces": i1["traces"] + i2["traces"], "exhaustive": True,
+                "bounds": {"depth_full_command_set": 3, "commands_full": len(full), "depth_core_command_set": 4, "commands_core": len(core)},
+                "extra": {"frontier_at_bound": i1["extra"]["frontier_at_bound"] + i2["extra"]["frontier_at_bound"]}}
+        return c1 + c2, r1 + r2, info
     c1, r1, i1 = _bfs(ctx, commands("thorough"), 4)
     core = [c for c in commands("thorough") if c[0] == "user" or (c[1] in ("A", "B", "C") and c[2] == "none" and c[4] == "default" and len(c) == 5)
             or (c[1] == "A" and c[2] == "poetry" and c[4] == "default" and len(c) == 5) or (len(c) > 5 and c[1] in ("A", "F") and c[2] == "none" and c[4] == "default")]
